@@ -208,6 +208,20 @@ class Engine(StmtMixin):
             results.append((st, Raise(self.make_exc(st, PyClass(StopIteration), (res,)))))
         return results
 
+    def drain_producer(self, st: State, ctx: Ctx, g: Ref, line: int):
+        """Run a producer generator object to exhaustion: list of (state, BytesSeq of everything it yields | Raise)."""
+        gd = st.heap[g.oid]
+        fi, c, frame = gd["$fi"], gd["$c"], gd["$frame"]
+        if c.gen != "producer" or gd["started"]:
+            raise EngineError(f"{ctx.func.key()}:{line}: cannot drain generator {fi.qualname}")
+        gd["started"] = gd["finished"] = True
+        old = st.clone()
+        out_seq = smt.fresh("chunks", smt.BytesSeq)
+        res = []
+        for s2, r in self.finish_gencall(st, ctx, fi, c, frame, old, {"OUT": out_seq}, line):
+            res.append((s2, r if isinstance(r, Raise) else out_seq))
+        return res
+
     def gen_close(self, st: State, g: Ref):
         st.heap[g.oid]["finished"] = True
         st.heap[g.oid]["started"] = True
